@@ -92,6 +92,8 @@ def run(ctx):
     _near_normaliser(ctx, prog, norm)
     _comparators(ctx, prog, sorter)
     _superset(ctx, prog, methods)
+    ctx.rule('R04.8', 'a sentinel previous-vector constant (NaN in entry 0) is finite in entries 1..5')
+    opw.sentinel_constants(ctx, 'R04.8')
 
 
 def _gkey(b, d):
